@@ -3,6 +3,7 @@
 package lab
 
 import (
+	"strconv"
 	"encoding/base64"
 	"bufio"
 	"bytes"
@@ -621,6 +622,23 @@ func compareC01(c C01Case, s sentReq, got *Msg, clientIP string) (fails []vstat.
 	}
 	if len(got.Trailers) > 0 {
 		fails = append(fails, vstat.Failf(key("invented-trailer"), "next hop got trailers %v", got.Trailers))
+	}
+	// "a body of identical bytes and length": a length the client declared stays declared (Content-Length is an
+	// end-to-end field), and a request without a body does not become one with a body of unknown length
+	gotCL, gotTE := got.Get("Content-Length"), got.Get("Transfer-Encoding")
+	kind := r.BodyKind
+	if kind == "cl" && len(s.body) == 0 {
+		kind = "none" // "Content-Length: 0" and no framing at all both say: no body (the field may be dropped or added)
+	}
+	switch kind {
+	case "cl":
+		if len(gotTE) > 0 || fmt.Sprint(gotCL) != fmt.Sprint([]string{strconv.Itoa(len(s.body))}) {
+			fails = append(fails, vstat.Failf(key("declared-length"), "%s with Content-Length: %d arrived with Content-Length %q, Transfer-Encoding %q", r.Method, len(s.body), gotCL, gotTE))
+		}
+	case "none":
+		if len(gotTE) > 0 || (len(gotCL) > 0 && fmt.Sprint(gotCL) != "[0]") {
+			fails = append(fails, vstat.Failf(key("declared-length"), "%s without a body arrived with Content-Length %q, Transfer-Encoding %q", r.Method, gotCL, gotTE))
+		}
 	}
 
 	// ---- fields
